@@ -303,3 +303,61 @@ def run_real_c13(case):
             except OSError:
                 pass
     return res
+
+
+def run_real_c11(case):
+    """real pool, real processes: dependents of a task that failed, was cancelled while running, or hit its time limit
+    (also in the variant where the task's shell has already exited 0 and only a background child keeps the task
+    alive) must never start; dependents of a task that completed do"""
+    res = Result()
+    rng = random.Random(case["seed"])
+    with gen.Project() as proj:
+        proj.write_workflow("from gwf import Workflow\ngwf = Workflow()\n")
+        uniq = "%05d%04d" % (os.getpid() % 100000, int(time.time() * 10) % 10000)
+        with realpool.Pool(proj, ncores=case.get("cores", 3)) as pool:
+            final = ("COMPLETED", "FAILED", "CANCELLED", "KILLED")
+            scen = []
+            mk1 = "311.%06d%s" % (rng.randrange(10**6), uniq)
+            # (label, script, time limit, how it ends, dependent may start?)
+            scen.append(("ok", "true", None, None, True))
+            scen.append(("fails", "exit 3", None, None, False))
+            scen.append(("timeout", "sleep %s" % mk1, 1, None, False))
+            mk2 = "312.%06d%s" % (rng.randrange(10**6), uniq)
+            scen.append(("timeout_shell_gone", "sleep %s &\necho started\nexit 0\n" % mk2, 1, None, False))
+            mk3 = "313.%06d%s" % (rng.randrange(10**6), uniq)
+            scen.append(("cancelled", "sleep %s" % mk3, None, "cancel", False))
+            ids = {}
+            for label, script, tl, how, _ in scen:
+                ids[label] = pool.raw_enqueue(label, script, proj.root, time_limit=tl, deps=[])
+                ids[label + "_dep"] = pool.raw_enqueue(label + "_dep", "touch %s.dep.ran" % label, proj.root, time_limit=None, deps=[ids[label]])
+            pool.wait_states(lambda st: st.get(ids["cancelled"]) == "RUNNING", timeout=20)
+            c = pool.client()
+            c.send("cancel_task", tid=ids["cancelled"])
+            c.close()
+            pool.wait_states(lambda st: all(st.get(t_) in final for t_ in ids.values()), timeout=60)
+            st = pool.states()
+            # late dependents: submitted after the prerequisite has ended
+            for label, _, _, _, _ in scen:
+                ids[label + "_late"] = pool.raw_enqueue(label + "_late", "touch %s.late.ran" % label, proj.root, time_limit=None, deps=[ids[label]])
+            pool.wait_states(lambda st_: all(st_.get(t_) in final for t_ in ids.values()), timeout=60)
+            st = pool.states()
+            res.mon("real_dependents_checked", 2 * len(scen))
+            res.obs("real_states", {k: st.get(v) for k, v in ids.items()})
+            for label, _, _, _, may in scen:
+                for kind in ("dep", "late"):
+                    ran = os.path.exists(os.path.join(proj.root, "%s.%s.ran" % (label, kind)))
+                    s_ = st.get(ids["%s_%s" % (label, kind)])
+                    if may and (not ran or s_ != "COMPLETED"):
+                        res.violation("real-dependent-not-run", "dependent (%s) of a completed task is %s, ran=%s" % (kind, s_, ran), states={k: st.get(v) for k, v in ids.items()})
+                    if not may and (ran or s_ == "COMPLETED"):
+                        res.violation("spawn-after-bad-dep", "real pool: the %s dependent of the task '%s' (which ended %s) was started (state %s)" % (kind, label, st.get(ids[label]), s_), states={k: st.get(v) for k, v in ids.items()})
+            if st.get(ids["timeout_shell_gone"]) == "COMPLETED":
+                res.violation("dep-failure-wrong-state", "real pool: a task that was still running at its time limit (shell gone, background child holding its output) is reported COMPLETED", states={k: st.get(v) for k, v in ids.items()})
+        for p in marker_pids(uniq):
+            try:
+                os.kill(p, 9)
+            except OSError:
+                pass
+    res.sig = ("real", case.get("cores", 3), case["seed"] % 3)
+    res.nontrivial = True
+    return res
